@@ -1,6 +1,8 @@
 import Cvise.Proofs.PassesTerm
 import Cvise.Proofs.PassesBalTerm
 import Cvise.Proofs.PassesTernTerm
+import Cvise.Proofs.DriverTotal
+import Cvise.Proofs.PassesDriver
 import Cvise.Props.C06
 import Cvise.Gen.Const
 /-!
@@ -75,5 +77,86 @@ theorem main_rounds_le {C σ : Type} [DecidableEq C] [Inhabited σ] [Inhabited C
 
 /-- the comparison that ends the main loop, as it is in the source now -/
 theorem shipped_stop_cmp : Gen.mainLoopStopCmp = .ge := by decide
+
+/-! ### the parallel driver itself terminates (L2 model) -/
+section driver
+variable {C σ : Type} [DecidableEq C] [Inhabited σ] [Inhabited C]
+
+/-- **all rounds of a pass on one file end**: for a pass with a measure that drops on `advance` and on
+    accept-then-`advance_on_success` (`D.Measured`, the two conditions of `drive_bound`), the speculative driver needs no
+    more than `μ + 1` rounds on a file and no more than `μ + 1` scheduling iterations per round — its result is the same
+    for every larger fuel, whatever the test answers, whichever candidates fail, hang or crash, whatever the schedule and
+    the limits.  (This is the model-level content of "the driver never wedges": fuel is the only thing that could end a
+    run artificially, and it is never the reason.) -/
+theorem pass_run_on_a_file_terminates (cfg : Cfg) (W : World C) (dn : Sched) (P : PassI C σ) (I : C → σ → Prop) (μ : C → σ → Nat)
+    (hμ : Measured P I μ) (k startSize j fuel rid : Nat) (s : σ) (succ : Nat) (x : D.St C) (hk : k < x.disk.length)
+    (hI : I (x.disk.getD k default) s)
+    (h1 : μ (x.disk.getD k default) s < fuel) (h2 : μ (x.disk.getD k default) s < cfg.giveup + 1000) :
+    fileLoop cfg W dn P k startSize fuel rid s succ x = fileLoop cfg W dn P k startSize (fuel + j) rid s succ x :=
+  fileLoop_total cfg W dn P I μ hμ k startSize j fuel rid s succ x hk hI h1 h2
+
+/-- **the whole reduction ends** (first / main to a fixpoint / last) for passes with a bounded measure: more fuel never
+    changes the result; the number of main-loop rounds is bounded by `main_rounds_le` -/
+theorem reduction_terminates (cfg : Cfg) (W : World C) (dn : Sched) (orderOf : List C → List Nat) (ho : OrderOK orderOf) (fuel j : Nat)
+    (first main last : List (PassI C σ)) (x : D.St C)
+    (h : ∀ P, P ∈ first ∨ P ∈ main ∨ P ∈ last → Terminating cfg fuel P) :
+    reduce cfg W dn orderOf fuel first main last x = reduce cfg W dn orderOf (fuel + j) first main last x :=
+  reduce_total cfg W dn orderOf ho fuel j first main last x h
+
+end driver
+
+/-- instances: the `balanced` and `ternary` pass models, plugged into the driver model as they are (contents = decoded
+    text, cursor = the match span): the speculative driver finishes a file of `n` characters within `2n + 2` rounds,
+    whatever the test, the faults, the schedule and the limits.  (`hsz`: the model's in-round fuel is
+    `GIVEUP_CONSTANT + 1000`; the real loop has no such bound.) -/
+theorem balanced_parallel_terminates (cfg : Cfg) (W : World Text) (dn : Sched) (arg : String) (bc : BalCfg) (hc : balCfg arg = some bc)
+    (key : Nat) (maxT : Option Nat) (k startSize j rid : Nat) (st : M.Span) (succ : Nat) (x : D.St Text) (hk : k < x.disk.length)
+    (hI : BalI (x.disk.getD k default) st) (hsz : 2 * (x.disk.getD k default).length + 2 ≤ cfg.giveup + 1000) :
+    fileLoop cfg W dn ((balanced bc).toI key maxT) k startSize (2 * (x.disk.getD k default).length + 2) rid st succ x =
+    fileLoop cfg W dn ((balanced bc).toI key maxT) k startSize (2 * (x.disk.getD k default).length + 2 + j) rid st succ x := by
+  apply P.balanced_parallel_terminates cfg W dn bc _ key maxT k startSize j rid st succ x hk hI hsz
+  unfold balCfg at hc
+  simp only [Option.map_eq_some_iff] at hc
+  obtain ⟨⟨a, o, c, pre, r⟩, hf, heq⟩ := hc
+  have hm := List.mem_of_find?_eq_some hf
+  have := List.all_eq_true.mp P.balanced_recipes_shrink _ hm
+  subst heq
+  exact this
+
+theorem ternary_parallel_terminates (cfg : Cfg) (W : World Text) (dn : Sched) (arg : String) (harg : arg = "b" ∨ arg = "c")
+    (key : Nat) (maxT : Option Nat) (k startSize j rid : Nat) (st : TernSt) (succ : Nat) (x : D.St Text) (hk : k < x.disk.length)
+    (hI : TernI (x.disk.getD k default) st) (hsz : 2 * (x.disk.getD k default).length + 2 ≤ cfg.giveup + 1000) :
+    fileLoop cfg W dn ((ternary arg).toI key maxT) k startSize (2 * (x.disk.getD k default).length + 2) rid st succ x =
+    fileLoop cfg W dn ((ternary arg).toI key maxT) k startSize (2 * (x.disk.getD k default).length + 2 + j) rid st succ x :=
+  P.ternary_parallel_terminates cfg W dn arg harg key maxT k startSize j rid st succ x hk hI hsz
+
+/-- non-vacuity: a pass that counts a content down from at most 5 is `Terminating` with fuel 6 -/
+def countdown : PassI Nat Nat where
+  key := 0
+  maxT := none
+  new := fun _ => some 0
+  advance := fun _ _ => none
+  aos := fun _ s => some s
+  transform := fun c s => if 0 < c ∧ c ≤ 5 then (.ok, c - 1, s) else (.stop, c, s)
+
+example : Terminating ({} : Cfg) 6 countdown := by
+  refine ⟨fun _ _ => True, fun c _ => if c ≤ 5 then c else 0, ⟨fun _ _ _ => trivial, fun _ _ _ _ _ => trivial, fun _ _ _ _ _ _ _ _ => trivial, ?_, ?_⟩, ?_⟩
+  · intro c s s' _ h; simp [countdown] at h
+  · intro c s c' s2 s' _ h _
+    simp only [countdown] at h
+    split at h
+    · rename_i hc
+      cases h
+      have : c - 1 ≤ 5 := by omega
+      simp only [this, hc.2, if_true]; omega
+    · cases h
+  · intro c s
+    constructor
+    · show (if c ≤ 5 then c else 0) < 6
+      split <;> omega
+    · show (if c ≤ 5 then c else 0) < 50000 + 1000
+      split <;> omega
+example : OrderOK (fun (d : List Nat) => List.range d.length) := by
+  intro d k hk; simpa using hk
 
 end Cvise.C03
